@@ -73,6 +73,11 @@ KERNEL_LAUNCH_CALLS = [("cudaLaunchKernel", "cuda_runtime", 6), ("cudaLaunchKern
 OTHER_RUNTIME_CALLS = ["cudaStreamIsCapturing", "cudaMalloc", "cudaFuncSetAttribute", "cudaGetDeviceCount",
                        "cudaStreamGetPriority", "cudaOccupancyMaxActiveBlocksPerMultiprocessorWithFlags",
                        "cudaPeekAtLastError", "cudaEventCreateWithFlags"]
+# names that are special to some layer between the trace file and the result: pandas' NA strings, glob / regex
+# characters, separators used by the tool's own output, numbers
+ODD_OP_NAMES = ["None", "nan", "NA", "null", "N/A", "<unknown>", "True", "1e5", "007", "layer[1]", "layer1",
+                "[pl][profile]run_training_batch", "model?fwd", "a*b", "op,with,comma", "op \"quoted\"", "op|pipe",
+                "op\twith\ttab", "aten::add.Tensor(self, other)", "  padded  ", "été"]
 USER_ANNOTATIONS = ["## forward ##", "## loss ##", "## optimizer ##", "dataloader", "[param|forward]",
                     "nccl:all_reduce", "## zero_grad ##"]
 FILE_NAME_PATTERNS = [
@@ -145,6 +150,13 @@ def default_knobs(rng: Rng, profile: str) -> Dict[str, Any]:
     k["tiny_events"] = bool(k["fractional"]) and profile in ("loader", "symtab") and rng.chance(0.5)
     k["flow_p"] = rng.choice([0.0, 0.5, 0.5])
     k["rank_at_border"] = profile == "files" and rng.chance(0.3)
+    # (round 6) a device record written twice, legacy category of the step records, names that are special to
+    # some library on the way (pandas' NA strings, glob characters, separators), exact symbol counts
+    k["duplicate_device"] = profile in ("loader", "symtab") and rng.chance(0.1)
+    k["step_cat"] = rng.weighted([("user_annotation", 17), ("Operator", 2), ("cpu_op", 1)]) if profile in ("loader", "symtab") else "user_annotation"
+    k["odd_names"] = rng.chance(0.4 if profile == "callgraph" else 0.2)
+    k["symbol_target"] = rng.choice([127, 128, 129, 255, 256, 257]) if (profile in ("loader", "symtab") and rng.chance(0.15)) else 0
+    k["zero_dur_bwd_edge"] = profile == "callgraph" and rng.chance(0.3)
     k["long_kernels"] = profile in ("callgraph", "loader", "env") and rng.chance(0.12)
     k["name_explosion"] = 0
     k["zero_dur_kernels"] = (not k["fractional"]) and profile in ("callgraph", "loader", "symtab", "env") and rng.chance(0.3)
@@ -466,7 +478,8 @@ class _RankGen:
 
     def emit_annotation(self, pid: int, tid: int, t: int, name: str, body) -> int:
         """Emit a user annotation that encloses whatever ``body(start)`` emits."""
-        ev = self.add_x("host", "user_annotation", name, pid, tid, t, 0,
+        cat = self.k.get("step_cat", "user_annotation") if name.startswith("ProfilerStep") else "user_annotation"
+        ev = self.add_x("host", cat, name, pid, tid, t, 0,
                         {"External id": self.ext_id, "Ev Idx": self.ext_id} if self.rng.chance(0.7) else None)
         cur = body(t + self.gap())
         end = max(cur + self.gap(), t + self.min_dur())
@@ -494,7 +507,7 @@ class _RankGen:
         for i in range(int(k.get("name_explosion") or 0)):
             # many operators with names of their own: the symbol table grows past the narrow integer widths
             self.ext_id += 1
-            d = self.dur_ticks(1, 3)
+            d = 3 * self.unit
             self.add_x("host", "cpu_op", f"custom::op_{self.rank}_{i}", self.host_pid, main_tid, t, d,
                        {"External id": self.ext_id})
             t += d + (self.unit if self.frac else 1)
@@ -551,7 +564,7 @@ class _RankGen:
             if si == 0 and k.get("first_in_step") and first_start > 0:
                 # the first step starts before the file's first event (event 0 then carries an iteration)
                 s0 = max(0, first_start - self.gap(zero_ok=False))
-                ev = self.add_x("host", "user_annotation", self.step_names[0], self.host_pid, main_tid, s0, 0,
+                ev = self.add_x("host", k.get("step_cat", "user_annotation"), self.step_names[0], self.host_pid, main_tid, s0, 0,
                                 {"External id": self.ext_id})
                 cur = step_body_factory(0)(t)
                 t = max(cur + self.gap(), s0 + self.min_dur())
@@ -595,6 +608,12 @@ class _RankGen:
                             saved_state[0], saved_state[1], saved_state[2], saved_state[3], saved_state[4])
                         break
                     cur = end + self.gap()
+                if k.get("zero_dur_bwd_edge") and not self.frac and cur <= e - 1 and r.chance(0.7):
+                    # a zero-width top-level autograd operator at the closing instant of the window; nothing
+                    # else on this thread touches that instant
+                    self.ext_id += 1
+                    self.add_x("host", "cpu_op", "autograd::engine::evaluate_function: " + r.choice(self.vocab["bwd"]),
+                               self.host_pid, tid, e, 0, {"External id": self.ext_id})
             if not bwd_windows and k["steps"] == 0:
                 self.emit_op(self.host_pid, tid, r.randint(0, max(1, main_end)), 1,
                              ["autograd::engine::evaluate_function: " + r.choice(self.vocab["bwd"])], [4])
@@ -639,6 +658,13 @@ class _RankGen:
                                self.dev, s, r.randint(0, span_end // 2), max(span_end // 3, self.min_dur()),
                                {"External id": self.ext_id})
 
+        if k.get("duplicate_device"):
+            devs = [e for e in self.entries if e["_grp"] == "device" and e["ev"].get("cat") in ("kernel", "gpu_memcpy")
+                    and "correlation" in (e["ev"].get("args") or {})]
+            if devs:
+                src = r.choice(devs)
+                import copy as _copy
+                self.entries.append({"_t": src["_t"], "_grp": "device", "ev": _copy.deepcopy(src["ev"])})
         trace_end = max([main_end] + list(self.free_at.values())) + 10 * self.unit
         # non-complete entries
         if k["meta_noise"]:
@@ -673,6 +699,18 @@ class _RankGen:
                 self.add_other(r.randint(0, trace_end), {"ph": "i", "cat": "cpu_instant_event", "name": "marker",
                                                          "pid": self.host_pid, "tid": main_tid, "s": "t"})
         return self.entries
+
+
+def _count_symbols(entries: List[Dict[str, Any]]) -> int:
+    """Distinct strings among the categories and names of the complete events (what the parser's local
+    symbol table will hold)."""
+    syms = set()
+    for e in entries:
+        ev = e["ev"]
+        if "_dur" in ev and ev.get("cat") not in (None, "Trace"):
+            syms.add(ev["cat"])
+            syms.add(ev.get("name"))
+    return len(syms)
 
 
 def _order_entries(rng: Rng, entries: List[Dict[str, Any]], order: str) -> List[Dict[str, Any]]:
@@ -716,6 +754,16 @@ def gen_world(rng: Rng, profile: str = "loader", overrides: Optional[Dict[str, A
     knobs = default_knobs(rng.fork("knobs"), profile)
     if overrides:
         knobs.update(overrides)
+    if knobs.get("wide_ops") == -1:
+        knobs["wide_ops"] = rng.fork("wide").choice([32768, 32770, 33000, 36000, 66000])
+    fam = knobs.get("symbol_family")
+    if fam:
+        # per-rank symbol counts on both sides of the widths of 16-bit integers
+        fr = rng.fork("symfam")
+        sizes = {"int16": [32767, 32768, 32769, 32770], "uint16": [65535, 65536, 65537, 32769]}[fam]
+        fr.shuffle(sizes)
+        knobs["ranks"] = len(sizes)
+        knobs["symbol_targets"] = {i: n for i, n in enumerate(sizes)}
     vr = rng.fork("vocab")
     vs = knobs["vocab_size"]
     base_vocab = {
@@ -726,6 +774,9 @@ def gen_world(rng: Rng, profile: str = "loader", overrides: Optional[Dict[str, A
                           else min(max(1, vs // 4), len(COMM_KERNEL_NAMES))),
         "annotations": vr.sample(USER_ANNOTATIONS, min(3, len(USER_ANNOTATIONS))),
     }
+    if knobs.get("odd_names"):
+        odd = vr.sample(ODD_OP_NAMES, vr.randint(2, 4))
+        base_vocab["ops"] = base_vocab["ops"] + odd
     step_names = [f"ProfilerStep#{knobs['step_base'] + i}" for i in range(knobs["steps"])]
     files = []
     generated: List[Any] = []
@@ -746,6 +797,21 @@ def gen_world(rng: Rng, profile: str = "loader", overrides: Optional[Dict[str, A
         else:
             g = _RankGen(rr.fork("g"), knobs, pos, rank, vocab, step_names)
         entries = g.generate(rr.fork("out"))
+        st = knobs.get("symbol_targets") or {}
+        target = st.get(pos) or st.get(str(pos)) or knobs.get("symbol_target") or 0
+        if target and not knobs.get("name_explosion"):
+            have = _count_symbols(entries)
+            if target > have:
+                # generate again with exactly the missing number of operator names of their own (the extra
+                # operators draw nothing from the generator's stream, so the rest of the rank is unchanged)
+                k2 = dict(knobs)
+                k2["name_explosion"] = target - have
+                if knobs.get("clone_ranks"):
+                    g = _RankGen(rng.fork("rank-shared"), k2, pos, rank, vocab, step_names)
+                    g.jrng = rr.fork("jitter")
+                else:
+                    g = _RankGen(rr.fork("g"), k2, pos, rank, vocab, step_names)
+                entries = g.generate(rr.fork("out"))
         entries = _order_entries(rr.fork("order"), entries, knobs["order"])
         generated.append((pos, rank, rr, entries))
     if knobs.get("boundary") and not knobs["fractional"]:
